@@ -249,7 +249,10 @@ func genC12LisLarge(g *G, calls []string, big []int) {
 	}
 	off := int(c13genSeed() / 1000)
 	for _, n := range sizes {
-		for _, vs := range c12shapes(g, n) {
+		for hi, vs := range c12shapes(g, n) {
+			if !g.Thorough() && n > 65 && (hi+off)%2 == 1 {
+				continue // quick: at 257 elements a rotating half of the shapes
+			}
 			g.Each(append(c11chunks([]string{"reset"}, "v", vs), calls...))
 		}
 	}
